@@ -486,7 +486,7 @@ func runC06(w *W) {
 							// elements by index (first, second, a far one) and the accessor of the element type: an
 							// announced count is no proof that the elements are there
 							g.Len()
-							for _, i := range []int{0, 1, 5, 1000} {
+							for _, i := range []int{0, 1, 2, 3, 4, 5, 6, 7, 8, 1000} {
 								e := g.Index(i)
 								if e.IsError() {
 									continue
@@ -513,6 +513,45 @@ func runC06(w *W) {
 							g.Raw()
 						case tSTRUCT:
 							g.Field(1)
+						}
+					}
+				}
+			})
+		}
+		if pick("ep.listsuffix") && len(b) > 0 {
+			// a suffix of the message taken as a list / set value of its own (at the header of one of its containers, or
+			// anywhere): element lookups by index and the accessor of the element type the header announces
+			k := t.Intn(len(b), "ep.listsuffix.at")
+			var cands []int
+			for _, m := range ms {
+				if m.Kind == 'N' && m.Off >= 1 && m.Off-1 < len(b) {
+					cands = append(cands, m.Off-1)
+				}
+			}
+			if len(cands) > 0 && t.Chance(3, 4, "ep.listsuffix.mark") {
+				k = cands[t.Intn(len(cands), "ep.listsuffix.which")]
+			}
+			sub := b[k:]
+			c.guarded("Node(LIST suffix).Index+accessor", len(sub), func() {
+				for _, lt := range []thrift.Type{thrift.LIST, thrift.SET} {
+					n := generic.NewNode(lt, sub)
+					n.Len()
+					for _, i := range []int{0, 1, 2, 3, 4, 5, 6, 7, 8, 1000} {
+						e := n.Index(i)
+						if e.IsError() {
+							continue
+						}
+						switch e.Type() {
+						case thrift.BOOL:
+							e.Bool()
+						case thrift.BYTE, thrift.I16, thrift.I32, thrift.I64:
+							e.Int()
+						case thrift.DOUBLE:
+							e.Float64()
+						case thrift.STRING:
+							e.String()
+						default:
+							e.Raw()
 						}
 					}
 				}
